@@ -28,6 +28,7 @@ var reIdentTok = regexp.MustCompile(`[A-Za-z_][A-Za-z0-9_]*`)
 func normalizeCompileError(msg string) string {
 	msg = regexp.MustCompile(`^[^:]*:\d+:\d+: `).ReplaceAllString(msg, "")
 	msg = regexp.MustCompile(`\([^)]*\)`).ReplaceAllString(msg, "")
+	msg = regexp.MustCompile(`invalid receiver type [A-Za-z_][A-Za-z0-9_]*`).ReplaceAllString(msg, "invalid receiver type X0") // also for lower-case type names
 	out := reIdentTok.ReplaceAllStringFunc(msg, func(w string) string {
 		// helpers of the CRUD code keep their role in the class: <T>ArrayToPQ, Scan<T>Array
 		if strings.HasSuffix(w, "ArrayToPQ") {
@@ -54,6 +55,43 @@ func normalizeCompileError(msg string) string {
 		out = out[:80]
 	}
 	return strings.TrimSpace(out)
+}
+
+// importedPackageGoimportsCannotFind reports whether ident is the NAME of a package imported by the
+// analysed package that the import fixing pass cannot resolve: goimports only considers a directory as a
+// candidate for `ident.X` when the last two elements of its import path contain ident (its documented
+// heuristic), so a package whose name differs from its directory is never found.
+func importedPackageGoimportsCannotFind(pkg *packages.Package, ident string) bool {
+	if pkg == nil {
+		return false
+	}
+	// direct and indirect imports: the type of a promoted field may come from a package the
+	// analysed package does not import itself
+	seen := map[string]bool{}
+	var visit func(p *packages.Package) bool
+	visit = func(p *packages.Package) bool {
+		for path, imp := range p.Imports {
+			if seen[path] {
+				continue
+			}
+			seen[path] = true
+			if imp.Name == ident {
+				elems := strings.Split(path, "/")
+				if len(elems) > 2 {
+					elems = elems[len(elems)-2:]
+				}
+				lastTwo := strings.ToLower(strings.ReplaceAll(strings.Join(elems, "/"), "-", ""))
+				if !strings.Contains(lastTwo, strings.ToLower(ident)) {
+					return true
+				}
+			}
+			if visit(imp) {
+				return true
+			}
+		}
+		return false
+	}
+	return visit(pkg)
 }
 
 // typeCheckWith loads the program's package with the given generated files
@@ -135,6 +173,10 @@ func oracleC01(ctx *progCtx) {
 					continue
 				}
 				sig := "go-typecheck:" + strings.TrimSuffix(t, "-sets") + ":" + normalizeCompileError(e)
+				if i := strings.Index(e, "undefined: "); i >= 0 && importedPackageGoimportsCannotFind(ctx.Pkg, strings.TrimSpace(e[i+len("undefined: "):])) {
+					// the cause is named, so that any other undefined identifier keeps its own class
+					sig = "go-typecheck:" + strings.TrimSuffix(t, "-sets") + ":undefined: name of an imported package that its import path does not spell"
+				}
 				if seen[sig] {
 					continue
 				}
